@@ -282,8 +282,8 @@ func (w *c06Worker) runCase(g, j int, c *c06Case) {
 		if u*(minChunks-1) >= n {
 			continue
 		}
-		if u < 5 && n > 4096 {
-			continue
+		if n > 4096 && (u < 5 || !c.pairs && (u == 7 || u == 16)) {
+			continue // long streams: 5-byte chunks and the frame-size chunkings (thorough: also 7, 16)
 		}
 		w.cuts = w.cuts[:0]
 		for x := u; x < n; x += u {
@@ -649,9 +649,12 @@ func c06Frame(flag byte, payload []byte) []byte {
 func c06MsgsB(r *vk.Run, lim int) (all []c06Msg, prefixes []c06Msg) {
 	var sizes []int
 	if lim == math.MaxInt {
-		sizes = []int{0, 1, 1000, 65536}
+		sizes = []int{0, 1, 1000}
 	} else {
-		sizes = []int{0, 1, lim - 1, lim, lim + 1, lim + 2, 8 * lim, 65536}
+		sizes = []int{0, 1, lim - 1, lim, lim + 1, lim + 2, 8 * lim}
+	}
+	if r.Thorough() {
+		sizes = append(sizes, 65536)
 	}
 	for _, kind := range []string{"zeros", "asc"} {
 		for _, n := range sizes {
@@ -876,7 +879,10 @@ func c06GenC(r *vk.Run, sc c06SendCfg, parts int, thorough bool) []*c06Case {
 	}
 	var cases []*c06Case
 	add := func(recipe string, st []byte, maxN int, bounds []int) {
-		lims := []int{maxN, 4 * 1024 * 1024, math.MaxInt}
+		lims := []int{maxN, math.MaxInt}
+		if thorough {
+			lims = append(lims, 4*1024*1024)
+		}
 		if maxN > 0 {
 			lims = append(lims, maxN-1)
 		}
@@ -896,7 +902,7 @@ func c06GenC(r *vk.Run, sc c06SendCfg, parts int, thorough bool) []*c06Case {
 		}
 		for _, lim := range lims {
 			for _, buf := range []int{c06BufRef, c06BufSlice} {
-				cases = append(cases, &c06Case{fam: "C", lim: lim, cfg: cfg, buf: buf, stream: st,
+				cases = append(cases, &c06Case{fam: "C", lim: lim, cfg: cfg, buf: buf, stream: st, pairs: thorough,
 					recipe: fmt.Sprintf("C[send=%s parts=%d %s]", sc.name, parts, recipe), positions: up})
 			}
 		}
@@ -1002,7 +1008,7 @@ func TestVerif_C06_Framing(t *testing.T) {
 	mine := func() bool { gi++; return r.Mine(gi) }
 
 	// family A
-	nAll := r.Pick(12, 15)
+	nAll := r.Pick(11, 15)
 	maxMsgsA := r.Pick(2, 3)
 	r.Set(P, "A_all_chunkings_up_to_stream_bytes", nAll)
 	r.Set(P, "A_max_messages", maxMsgsA)
